@@ -247,6 +247,54 @@ function buildB(spec) {
   }
 }
 
+// ---- histories over the runtime type-building API (b.*, createNamedType, overrideNamedType) ----
+// ops: {op:"create",name,spec} {op:"override",name,spec} {op:"build",id,spec} {op:"observe",id}
+// specs: buildB's language plus {k:"ref",name} (a named parser) and {k:"use",id} (a parser built earlier).
+// The history is run twice under different name prefixes: as given (with its observations), and without the
+// observations; the final digests of every parser must not depend on what was observed on the way.
+let historyCounter = 0;
+function runBHistoryOnce(ops, values, observe) {
+  const prefix = `VerifHist_${process.pid}_${historyCounter++}_`;
+  const named = {};
+  const built = {};
+  const build = (spec) => {
+    switch (spec.k) {
+      case "ref": if (!(spec.name in named)) throw new Error("history uses an undefined name"); return named[spec.name];
+      case "use": if (!(spec.id in built)) throw new Error("history uses an unbuilt parser"); return built[spec.id];
+      case "array": return BMOD.b.Array(build(spec.item));
+      case "object": { const f = {}; for (const [k, v] of spec.fields) f[k] = build(v); return BMOD.b.Object(f); }
+      case "union": return BMOD.buntyped.Union(...spec.items.map(build));
+      default: return buildB(spec);
+    }
+  };
+  const look = (id) => (id in built ? built[id] : named[id]);
+  const snapshot = (p) => {
+    const o = {};
+    try { o.hash256 = p.hash256(); } catch (e) { o.hash256Threw = thrown(e); }
+    try { o.hash = p.hash(); } catch (e) { o.hashThrew = thrown(e); }
+    o.validate = values.map((v) => { try { return p.validate(v) ? 1 : 0; } catch (e) { return "threw"; } });
+    return o;
+  };
+  const observations = [];
+  ops.forEach((op, step) => {
+    switch (op.op) {
+      case "create": named[op.name] = RTMOD.createNamedType(prefix + op.name, build(op.spec)); break;
+      case "override": RTMOD.overrideNamedType(prefix + op.name, build(op.spec)); break;
+      case "build": built[op.id] = build(op.spec); break;
+      case "observe": if (observe) observations.push({ step, id: op.id, ...snapshot(look(op.id)) }); break;
+      default: throw new Error("bad history op " + op.op);
+    }
+  });
+  const finals = {};
+  for (const id of [...Object.keys(named), ...Object.keys(built)]) finals[id] = snapshot(look(id));
+  return { observations, finals };
+}
+function runBHistory(ops, values) {
+  const observed = runBHistoryOnce(ops, values, true);
+  const fresh = runBHistoryOnce(ops, values, false);
+  return { observations: observed.observations, finals: observed.finals, fresh: fresh.finals };
+}
+
 // ---- independent path resolver for C12 ----
 // Returns {ok, value} where ok=false when the path cannot be resolved.
 function looseJson(k) {
@@ -767,6 +815,8 @@ function runQuery(env, q) {
     }
     case "digest":
       try { return runDigestSequence(q.ops); } catch (e) { return { threw: thrown(e) }; }
+    case "bHistory":
+      try { return runBHistory(q.ops, q.values.map(revive)); } catch (e) { return { threw: thrown(e) }; }
     default:
       throw new Error("unknown query " + q.q);
   }
